@@ -239,6 +239,22 @@ def check(case):
         require(R == B and not (R != B), "(g*A).reorder(mapping) does not compare equal to B")
         require(observe(A) == (occA, ordA), "g*A changed A")
         classes.append("returned_builder_op" if kk == k and kind == "related" else "returned_other_op")
+    # ---- history variant: the same search after an in-place operation on an object that was queried before ------------
+    if ndef >= 1:
+        S = A.copy()
+        S.defectindices()
+        S.KrogerVink()
+        gk = C.G[k]
+        S *= gk
+        t = mA.clone()
+        t.permute(C.perms[k])
+        require(observe(S) == t.state(), lambda: "in-place `*=` after a defect query gives %s, the model %s" % (observe(S), t.state()))
+        g2, map2 = S.equivalencemap(A)
+        require(g2 is not None and map2 is not None, lambda: "S = A.copy(); S.defectindices(); S *= g leaves S an image of A, but S.equivalencemap(A) finds no operation (rot %s); %s"
+                % (np.asarray(gk.rot).tolist(), what))
+        R2 = (g2 * S).reorder(map2)
+        require(observe(R2) == (occA, ordA), lambda: "(g2*S).reorder(mapping) gives %s, A is %s" % (observe(R2), (occA, ordA)))
+        classes.append("history_query_imul_search")
     # ---- classes ---------------------------------------------------------------------------------------------------
     names = set()
     for j in range(C.nsites):
